@@ -53,10 +53,10 @@ Proof. reflexivity. Qed.
 Section Den.
 Variable c : cfg.
 Inductive denotes : term -> node -> Prop :=
-| DKw nm n : nval n = VKeyword None nm -> denotes (TKw nm) n
-| DInt neg ds n : nval n = int_literal_value c neg ds -> denotes (TInt neg ds) n
-| DVec l xs n : nval n = VVector xs -> Forall2 denotes l xs -> denotes (TVec l) n
-| DList l xs n : nval n = VList xs -> Forall2 denotes l xs -> denotes (TList l) n.
+| DKw nm n : nval n = VKeyword None nm -> nhash n = 0%Z -> denotes (TKw nm) n
+| DInt neg ds n : nval n = int_literal_value c neg ds -> nhash n = 0%Z -> denotes (TInt neg ds) n
+| DVec l xs n : nval n = VVector xs -> nhash n = 0%Z -> Forall2 denotes l xs -> denotes (TVec l) n
+| DList l xs n : nval n = VList xs -> nhash n = 0%Z -> Forall2 denotes l xs -> denotes (TList l) n.
 End Den.
 
 (* ---- what the generated dispatch tables say about the bytes the fragment uses, in all four builds ---- *)
